@@ -7,6 +7,7 @@ pub mod c03;
 pub mod c04;
 pub mod c05;
 pub mod c06;
+pub mod c07;
 pub mod c08;
 pub mod c08_columnar;
 pub mod c08_tantivy;
@@ -23,7 +24,7 @@ pub mod c19_gen;
 pub mod c20;
 
 pub fn all() -> Vec<PropDef> {
-    vec![c01::def(), c02::def(), c03::def(), c04::def(), c05::def(), c06::def(), c08::def(), c09::def(), c10::def(), c11::def(), c12::def(), c17::def(), c18::def(), c19::def(), c20::def()]
+    vec![c01::def(), c02::def(), c03::def(), c04::def(), c05::def(), c06::def(), c07::def(), c08::def(), c09::def(), c10::def(), c11::def(), c12::def(), c17::def(), c18::def(), c19::def(), c20::def()]
 }
 
 /// entry point of `tvv child …` (used by the checks that need process isolation)
